@@ -69,7 +69,7 @@ def run(ctx):
     ]
     _, insts = bp.max_run(ctx, "c13_a", NS=2, NI=3, G=2, mult=1, max_edges=2 if q else 3, ins=(0, 1), lik=(1, 2),
                           emit=True)
-    _, more = bp.max_run(ctx, "c13_b", simulate=300 if q else 24000, NS=2, NI=4, G=3, mult=2, max_edges=5,
+    _, more = bp.max_run(ctx, "c13_b", simulate=900 if q else 24000, NS=2, NI=4, G=3, mult=2, max_edges=5,
                          ins=(0, 1, 2), lik=(1, 2, 3), emit=True)
     sim = list(more)
     if not q:
@@ -92,7 +92,7 @@ def run(ctx):
         bp.mirror_sync_max(ctx, inst)
         replay_inst(ctx, inst)
     bp.tick(ctx, "replay_shim")
-    inputs = bp.corpus(ctx, 5 if q else 40, 1 if q else 8, small=q) + (bp.sparse_corpus(ctx, 40) if not q else [])
+    inputs = bp.corpus(ctx, 8 if q else 40, 1 if q else 8, small=q) + (bp.sparse_corpus(ctx, 40) if not q else [])
     for k, inp in enumerate(inputs):
         for space in bp.SPACES:
             real_run(ctx, inp.name, inp.ts, inp.mu, inp.Ne, space, 1e-8 if (k % 2 == 0) else 1e-3)
